@@ -147,6 +147,16 @@ func scanAliasSites(root string) (sites []aliasSite, framed int, err error) {
 								}
 							}
 						}
+						// p = <fresh value>: from here on p no longer denotes the caller's slice
+						if n.Tok == token.ASSIGN && len(n.Lhs) == len(n.Rhs) {
+							for i, l := range n.Lhs {
+								if id, ok := l.(*ast.Ident); ok {
+									if o := p.info.Uses[id]; o != nil && params[o] && rootParam(p.info, n.Rhs[i], params, aliases) == nil {
+										delete(params, o)
+									}
+								}
+							}
+						}
 						// store-parameter: x.f = p  (exported API only)
 						if exported && n.Tok == token.ASSIGN && len(n.Lhs) == len(n.Rhs) {
 							for i, l := range n.Lhs {
@@ -184,6 +194,17 @@ func scanAliasSites(root string) (sites []aliasSite, framed int, err error) {
 					case *ast.CompositeLit:
 						if !exported {
 							return true
+						}
+						// only objects of this package's own types are "constructed and kept";
+						// a literal of a foreign type (e.g. a proto passed to a parser) is transient
+						if tv, ok := p.info.Types[n]; ok {
+							t := tv.Type
+							if pt, isP := t.(*types.Pointer); isP {
+								t = pt.Elem()
+							}
+							if nt, isN := t.(*types.Named); !isN || nt.Obj().Pkg() != p.pkg {
+								return true
+							}
 						}
 						for _, el := range n.Elts {
 							kv, ok := el.(*ast.KeyValueExpr)
